@@ -1158,9 +1158,9 @@ class Collections:
             if a.id in fn.mutated:
                 return ("other", a.id + " (changed in place)")
             ds = fn.reaching(a.id, a) if (parent(a) is not None or hasattr(a, "_at")) else []
-            if len(ds) == 1 and ds[0].kind == "assign" and isinstance(ds[0].value, ast.Call) and hops < 3:
+            if len(ds) == 1 and ds[0].kind == "assign" and hops < 3:
                 v = ds[0].value
-                if (_call_name(v) in ("map", "filter", "sorted", "reversed") or fn.lib_name(v.func) in ("itertools.starmap",) or _call_name(v) == "starmap"):
+                if isinstance(v, (ast.GeneratorExp, ast.ListComp)) or (isinstance(v, ast.Call) and (_call_name(v) in ("map", "filter", "sorted", "reversed", "starmap") or fn.lib_name(v.func) in ("itertools.starmap",))):
                     return self._stream_base(v, hops + 1)  # a lazily / eagerly derived stream kept in a local
             return ("same", a.id)
         if isinstance(a, ast.Call) and not a.keywords:
